@@ -422,7 +422,7 @@ PROPS["C10"] = dict(
         dict(module="MC_Adjust", cfg="MC_Adjust_dups_thorough.cfg", tiers=("thorough",), workers=14, timeout=3400, heap="24g"),
     ],
     trace="Trace_C10",
-    drive=dict(quick=dict(n=1500, size=3), thorough=dict(n=30000, size=7)),
+    drive=dict(quick=dict(n=1500, size=3), thorough=dict(n=20000, size=5)),
     nontrivial=lambda e: len(e["args"]["orig"]) >= 1 and len(e["args"]["adj"]) >= 1,
     corrupt=_corrupt_c10,
     rule="cases: every (orig, adj) of MC_Adjust: <= MaxO original and <= MaxA adjustment tokens over Lines x Cols, adjustment displacements {(0,0),(0,2),(1,0),(1,1)}, without and with duplicated positions; seeded random pairs on grids up to 50x50 with up to ~56 tokens a side, a third of them with duplicated positions, tokens handed to the crate in shuffled order; distinct = distinct (orig, adj); non-trivial = both maps non-empty",
